@@ -38,3 +38,20 @@ func (c *Coordinator) VerifBusy() int {
 	}
 	return n
 }
+
+// VerifFormat returns the Jepsen log line the recorder writes for an event.
+func VerifFormat(e VerifEvent) string {
+	ev := &event{eventType: e.Type, eventResult: e.Result, id: e.ID, value: e.Value}
+	return ev.toJepsenLogEntry()
+}
+
+// VerifSetEvents replaces the recorded history (used to exercise
+// SaveAsJepsenLog on histories the harness constructs).
+func (c *Coordinator) VerifSetEvents(evs []VerifEvent) {
+	c.mu.Lock()
+	defer c.mu.Unlock()
+	c.events = c.events[:0]
+	for _, e := range evs {
+		c.events = append(c.events, event{eventType: e.Type, eventResult: e.Result, id: e.ID, value: e.Value})
+	}
+}
